@@ -190,6 +190,9 @@ Eval(C, e, cw) ==
              a0 == Eval(C, e.l, w)
              b0 == Eval(C, e.r, w)
          IN IF IsU(a0) \/ IsU(b0) THEN U
+            \* how wide l.sum is is the library's choice (it follows the length of the list): arithmetic directly on a sum is
+            \* specified only where a 32-bit operand or context makes that width irrelevant - elsewhere an open zone
+            ELSE IF ~IsRel(e.op) /\ (e.l.k = "sum" \/ e.r.k = "sum") /\ w < 32 THEN U
             ELSE BinOp(e.op, Ext(a0, w, sg), Ext(b0, w, sg), sg)
 
 (* ----------------------------- statements ----------------------------- *)
